@@ -1,6 +1,7 @@
 package main
 
 import (
+	"hash/fnv"
 	"fmt"
 	"math"
 	"strings"
@@ -36,6 +37,10 @@ type nodeMon struct {
 	prev        *raft.VerifDump
 	startTerm   uint64
 	lastRdHS    *pb.HardState
+	// C20 / C18: what a Ready handed out must not change afterwards (no array shared with raft's
+	// own state may be written through later)
+	lastRd    *raft.Ready
+	lastRdSig uint64
 	nextApply   uint64
 	prevState   raft.StateType
 	prevTerm    uint64
@@ -198,6 +203,7 @@ func (m *Monitors) onStart(n *Node) {
 	x.viewFirst = 0
 	hs, _, _ := n.st.InitialState()
 	x.lastRdHS = hs
+	x.lastRd = nil
 	if x.exposedVote == nil {
 		x.exposedVote = map[uint64]uint64{}
 	}
@@ -220,6 +226,13 @@ func (m *Monitors) onCrash(n *Node) { m.hit("C05.crash") }
 func (m *Monitors) onReady(n *Node, rd *raft.Ready) {
 	x := m.node(n)
 	d := n.rn.VerifState()
+	if x.lastRd != nil {
+		m.hit("C20.previous-ready-rehashed")
+		if readySig(x.lastRd) != x.lastRdSig {
+			m.report("C20", "", "node %d: the contents of the previous Ready (entries, committed entries or messages) changed after it had been handed out", n.id)
+		}
+	}
+	x.lastRd, x.lastRdSig = rd, readySig(rd)
 	// C07 (a): exposed hard states
 	if rd.HardState != nil && !raft.IsEmptyHardState(rd.HardState) {
 		// C02 / C05: a Ready whose hard state carries a new term or a new vote (or that carries
@@ -1020,4 +1033,54 @@ func (m *Monitors) onStorageSnapshot(n *Node, s *pb.Snapshot) {
 	if fi != idx+1 || li != idx || err != nil || t != term {
 		m.report("C09", "", "node %d: after ApplySnapshot(%d/%d) the storage answers first %d last %d term(%d)=%d: not exactly the snapshot as the new base", n.id, idx, term, fi, li, idx, t)
 	}
+}
+
+// readySig: a hash of everything a Ready hands out by reference (entries, committed entries,
+// messages with their entries and, for the storage threads, their responses)
+func readySig(rd *raft.Ready) uint64 {
+	h := fnv.New64a()
+	w := func(x uint64) {
+		var b [8]byte
+		for i := 0; i < 8; i++ {
+			b[i] = byte(x >> (8 * i))
+		}
+		h.Write(b[:])
+	}
+	ents := func(es []*pb.Entry) {
+		w(uint64(len(es)))
+		for _, e := range es {
+			w(e.GetIndex())
+			w(e.GetTerm())
+			w(uint64(e.GetType()))
+			w(uint64(len(e.GetData())))
+			h.Write(e.GetData())
+		}
+	}
+	var msg func(mm *pb.Message)
+	msg = func(mm *pb.Message) {
+		w(uint64(mm.GetType()))
+		w(mm.GetTo())
+		w(mm.GetFrom())
+		w(mm.GetTerm())
+		w(mm.GetLogTerm())
+		w(mm.GetIndex())
+		w(mm.GetCommit())
+		if mm.GetReject() {
+			w(1)
+		} else {
+			w(0)
+		}
+		ents(mm.GetEntries())
+		w(uint64(len(mm.GetResponses())))
+		for _, r := range mm.GetResponses() {
+			msg(r)
+		}
+	}
+	ents(rd.Entries)
+	ents(rd.CommittedEntries)
+	w(uint64(len(rd.Messages)))
+	for _, mm := range rd.Messages {
+		msg(mm)
+	}
+	return h.Sum64()
 }
